@@ -30,6 +30,7 @@ pub mod specbin;
 pub mod scalar;
 pub mod mixed;
 pub mod domprobes;
+pub mod lencheck;
 pub mod c03;
 pub mod c04;
 pub mod c05;
